@@ -22,7 +22,10 @@ import (
 type vh02Step struct {
 	K   int  `json:"k"`
 	EOF bool `json:"eof"`
+	Err bool `json:"err,omitempty"` // this Read returns its bytes together with a non-EOF error
 }
+
+var vh02ErrInjected = errors.New("vh: injected read error")
 
 type vh02Reader struct {
 	data   []byte
@@ -30,6 +33,7 @@ type vh02Reader struct {
 	script []vh02Step
 	si     int
 	reads  []int // len(p) of every Read
+	failed bool  // an injected error is permanent, like an error of a real connection
 }
 
 func (r *vh02Reader) Read(p []byte) (int, error) {
@@ -41,6 +45,9 @@ func (r *vh02Reader) Read(p []byte) (int, error) {
 	if r.si < len(r.script) {
 		st = &r.script[r.si]
 		r.si++
+	}
+	if r.failed {
+		return 0, vh02ErrInjected
 	}
 	if r.pos >= len(r.data) {
 		return 0, io.EOF
@@ -54,6 +61,10 @@ func (r *vh02Reader) Read(p []byte) (int, error) {
 	}
 	copy(p, r.data[r.pos:r.pos+n])
 	r.pos += n
+	if st != nil && st.Err {
+		r.failed = true
+		return n, vh02ErrInjected
+	}
 	if st != nil && st.EOF && n > 0 && r.pos == len(r.data) {
 		return n, io.EOF
 	}
